@@ -357,6 +357,9 @@ class FxBuilder(Builder):
                 return
             if pe[0] == "local":
                 fr.state[r[2]] = val
+                nm = fr.body.names.get(r[2])
+                if nm and nodes is not None:
+                    nodes.append(("lstore", fr.fn.id, r[2], nm, val, site))
                 return
             cur = fr.state.get(r[2])
             if pe[0] == "field" and pe[1][0] == "local" and cur is not None and cur[0] == "agg" and pe[3] < len(cur[3]):
@@ -507,6 +510,9 @@ class FxBuilder(Builder):
                     val = self.ev_rvalue(fr, rv)
                     if not pl["p"]:
                         fr.state[pl["l"]] = val
+                        nm = body.names.get(pl["l"])
+                        if nm and len(body_info(body).defs.get(pl["l"], ())) > 1:
+                            nodes.append(("lstore", fn.id, pl["l"], nm, val, Site(fn, b, si)))
                     else:
                         tgt = self.ev_place(fr, pl, as_place=True)
                         if _root(tgt)[0] == "local" or is_memory_place(tgt):
@@ -662,6 +668,15 @@ class FxBuilder(Builder):
         veq = self._value_eq_call(name, args)
         if veq is None:
             veq = self._ext_model(base, args, fr.depth)
+        if veq is None and name.startswith("<u") and "Assign>::" in name and len(args) == 2:
+            opn = {"bitxor_assign": "BitXor", "bitor_assign": "BitOr", "bitand_assign": "BitAnd",
+                   "add_assign": "Add", "sub_assign": "Sub"}.get(name.split("::")[-1])
+            tgt = args[0]
+            if opn in ("BitXor", "BitOr", "BitAnd") and tgt[0] == "ref":
+                cur = self.load(tgt[1])
+                newv = self.simp(norm_bin(opn, cur, args[1]))
+                self.store(tgt[1], newv, site, nodes)
+                veq = ("zst", "()")
         if veq is None and base and "IntoIterator for [" in base and base.endswith("into_iter") and args \
                 and args[0][0] == "agg" and args[0][1] == "array":
             veq = ("arrayiter", args[0][3], 0)
@@ -872,6 +887,8 @@ def show_tree(nodes, show, indent=0, out=None, hide_pure=True):
             out.write("%sassert[%s] %s == %s\n" % (pad, n[1], show(n[2]), n[3]))
         elif k == "panic":
             out.write("%sPANIC %s(%s)\n" % (pad, n[1], ", ".join(show(a) for a in n[2])))
+        elif k == "lstore":
+            out.write("%s%s@ := %s\n" % (pad, n[3], show(n[4])))
         elif k == "ret":
             out.write("%sret %s\n" % (pad, show(n[1])))
         else:
@@ -899,7 +916,16 @@ def tree_paths(nodes, limit=20000):
             n = seq[i]
             k = n[0]
             if k == "switch":
+                dv = path_value(n[1], choices)
+                forced = None
+                if dv[0] == "const":
+                    forced = "else"
+                    for lab in n[2]:
+                        if lab != "else" and dv[1] in lab:
+                            forced = lab
                 for lab, sub in n[2].items():
+                    if forced is not None and lab != forced:
+                        continue
                     ch = dict(choices)
                     ch[n[5]] = lab
                     rec(sub, 0, list(events) + [("branch", n[1], lab, n[3], n[4])], ch, depth,
@@ -952,3 +978,79 @@ def resolve_phi(e, choices):
         else:
             out.append(x)
     return tuple(out)
+
+
+# ---------------------------------------------------------------------- path-time simplification
+
+_VARIANT_DISCR = {"None": 0, "Some": 1, "Ok": 0, "Err": 1, "Continue": 0, "Break": 1}
+_OPT, _RES, _CF = "core::option::Option", "core::result::Result", "core::ops::control_flow::ControlFlow"
+
+
+def simplify_variants(e):
+    """After phi resolution a value may have become a literal Ok/Err/Some/None: push the std combinators
+    (`?`, map_err, ok, unwrap...) through it. Pure rewriting on expression trees."""
+    if not isinstance(e, tuple) or not e:
+        return e
+    k = e[0]
+    if k == "call":
+        args = tuple(simplify_variants(a) for a in e[2])
+        name = e[1]
+        a0 = args[0] if args else None
+        lit = a0 is not None and a0[0] == "agg" and a0[1] in (_OPT, _RES)
+        v = a0[2] if lit else None
+        last = name.split("::")[-1].split("<")[0]
+        if lit:
+            if name.endswith("Try>::branch"):
+                if v in ("Some", "Ok"):
+                    return ("agg", _CF, "Continue", a0[3])
+                return ("agg", _CF, "Break", (a0,))
+            if last == "map_err" or "::map_err::" in name:
+                if v == "Ok":
+                    return a0
+                return ("agg", _RES, "Err", (("mapped", args[1] if len(args) > 1 else None, a0[3]),))
+            if last == "map" or "::map::" in name:
+                if v in ("Err", "None"):
+                    return a0
+            if last == "ok":
+                return ("agg", _OPT, "Some", a0[3]) if v == "Ok" else ("agg", _OPT, "None", ())
+            if last in ("unwrap", "expect") and v in ("Some", "Ok"):
+                return a0[3][0]
+            if last == "is_err":
+                return ("const", 1 if v == "Err" else 0, "bool")
+            if last == "is_ok":
+                return ("const", 1 if v == "Ok" else 0, "bool")
+            if last == "is_some":
+                return ("const", 1 if v == "Some" else 0, "bool")
+            if last == "is_none":
+                return ("const", 1 if v == "None" else 0, "bool")
+        return ("call", name, args)
+    if k == "discr":
+        inner = simplify_variants(e[1])
+        if inner[0] == "agg" and inner[1] in (_OPT, _RES, _CF) and inner[2] in _VARIANT_DISCR:
+            return ("const", _VARIANT_DISCR[inner[2]], "isize")
+        return ("discr", inner)
+    if k == "field":
+        base = simplify_variants(e[1])
+        if base[0] == "downcast" and base[1][0] == "agg" and base[1][2] == base[2] and e[2] in ("0", "#0") and base[1][3]:
+            return base[1][3][0]
+        return ("field", base) + tuple(e[2:])
+    if k == "downcast":
+        inner = simplify_variants(e[1])
+        if inner[0] == "agg" and inner[1] in (_OPT, _RES, _CF) and inner[2] == e[2] and len(inner[3]) == 1:
+            # N() has already dropped the `.0`: a downcast of a literal single-payload variant is its payload
+            return inner[3][0]
+        return ("downcast", inner, e[2])
+    out = [k]
+    for x in e[1:]:
+        if isinstance(x, tuple):
+            if x and isinstance(x[0], str):
+                out.append(simplify_variants(x))
+            else:
+                out.append(tuple(simplify_variants(y) if isinstance(y, tuple) else y for y in x))
+        else:
+            out.append(x)
+    return tuple(out)
+
+
+def path_value(e, choices):
+    return simplify_variants(resolve_phi(e, choices))
